@@ -36,6 +36,16 @@ CLAIMED = {
             'numpy.concatenate in argument order.',
             'numpy.concatenate trusted; dimension order not compared; the disk form compares dims/data/masks only',
             'DESIGN.md section 4 C04'),
+    'C01': ('B', 'model_checking',
+            'explicit-state breadth-first search over operation sequences on real file objects (canonical-hash deduplication, history replay)',
+            'BFS from 13 seed files (small universe incl. masked/char/scalar/coordinate/unlimited, IOAPI gridded/boundary/'
+            'disk-backed, netCDF-backed, CAMx and ICARTT reader outputs) under a state-derived menu of ~30 operation '
+            'instances covering every public transformation, to depth 2 (quick) / 3 (thorough). Every state reached '
+            'is checked for well-formedness (dimension names exist, shapes match, unlimited flags survive, IOAPI '
+            'TSTEP unlimited, attributes retrievable) and every in-domain instance must complete; out-of-domain '
+            'instances must raise or return a well-formed file.',
+            'canonical form merges only states with equal futures (DESIGN 2.2); domain predicate per operation is '
+            'computed from the state structure (DESIGN 3.1, convention-file restrictions in section 7)', 'DESIGN.md section 4 C01'),
 }
 
 PENDING_REASON = ('check not built yet in this session; planned per DESIGN.md section 4 '
